@@ -29,7 +29,10 @@ def point_cases(max_ops=25, curves=None, time_classes=TIME_CLASSES, pos_classes=
         # other polygons the curve class accepts (the evaluation only sees gamma and the parameter intervals)
         poly = st.builds(lambda p, ts: {'kind': 'param', 'curve': p, 'ts': ts, 'xs': None}, st.sampled_from(POLYGONS),
                          st.sampled_from([[0.0, 1.0], [0.0, 0.25], [0.0, 0.01, 0.02]]))
-        specs = st.one_of(specs, specs, specs, poly)
+        # and curves mixing straight pieces and arcs
+        mixed = st.builds(lambda c, ts: {'kind': 'param', 'curve': c, 'ts': ts, 'xs': None},
+                          st.sampled_from(['Stadium', 'Stadium1', 'Dee']), st.sampled_from([[0.0, 1.0], [0.0, 0.25], [0.0, 0.5, 1.0]]))
+        specs = st.one_of(specs, specs, specs, poly, mixed)
     return st.fixed_dictionaries({
         'spec': specs, 'ops': gens.histories(max_ops=max_ops, allow=('t', 'x', 'tx')),
         'ei': st.integers(0, 10**6), 'tcl': st.sampled_from(list(time_classes)), 'tpar': st.floats(0.0, 1.0),
